@@ -25,8 +25,10 @@ BUDGET = {"quick": {"examples": 110, "workers": 4}, "thorough": {"examples": 150
 
 
 def strategy(tier):
-    return geo.case_strategy(tier, kinds=("interior", "interior", "boundary", "boundary", "product",
+    from hypothesis import strategies as st
+    base = geo.case_strategy(tier, kinds=("interior", "interior", "boundary", "boundary", "product",
                                           "depproduct", "bproduct"))
+    return st.one_of(base, base, base, base, base, base, base, base, base, geo.big_leaf_case())
 
 
 def _lib_contains(ctx, D, env, label, feature):
@@ -187,6 +189,26 @@ def run_case(spec, ctx):
             ctx.violation("own-sample-rejected", who,
                           f"{rej.sum()} of {rows} own {how} boundary samples rejected by the boundary's "
                           f"_contains, e.g. { {kk: np.round(v[i], 6).tolist() for kk, v in e_own.items()} }")
+    # exact points of the reference boundary (float64 points of a leaf boundary, moved with the leaf, that
+    # lie on the boundary of the result and away from every other leaf boundary) must be accepted after
+    # rounding to float32 - under the same conditioning rule as the library's own samples
+    abs_tol_leaf = rg.has(E, lambda n: n["t"] in ("poly", "mesh"))
+    if not (cond > 6 or (abs_tol_leaf and tol["scale"] > 4)) and not top.endswith("+touching"):
+        q = _operand_boundary_queries(E, penv, k, booleans_only=False)
+        if q is not None:
+            A_ = E["a"]
+            on = rg.probe_mixed(A_, q, 1e-6 * tol["scale"])
+            d_ = np.sort(np.stack(rg.leaf_dists(A_, q), axis=0), axis=0)
+            lone = d_[1] > 5 * tol["tol_b"] if d_.shape[0] > 1 else np.ones(len(on), dtype=bool)
+            vals_q = _lib_contains(ctx, D, geo.env32(q), "_contains(exact boundary points)", top)
+            if vals_q is not None:
+                miss = on & lone & ~vals_q
+                summary["exact_boundary_rows"] = int((on & lone).sum())
+                if miss.any():
+                    i = int(np.where(miss)[0][0])
+                    ctx.violation("boundary-point-rejected", _blame_boundary(E, {kk: v[[i]] for kk, v in q.items()}, tol["tol_b"]),
+                                  f"{miss.sum()} of {(on & lone).sum()} exact points of the boundary are rejected by the boundary's "
+                                  f"_contains, e.g. { {kk: np.round(v[i], 6).tolist() for kk, v in q.items()} }")
     # a polyhedron built with its own boundary tolerance: rows closer to a face than that tolerance are on
     # the boundary by the user's declaration (judged where the declared tolerance dominates float32 rounding)
     A0 = E.get("a", {})
@@ -253,11 +275,12 @@ def _blame_boundary(E, env1, tol):
     return labs[0][1] if labs else "?"
 
 
-def _operand_boundary_queries(E, penv, k):
+def _operand_boundary_queries(E, penv, k, booleans_only=True):
     """points on the boundary of every operand leaf of a Boolean combination: the pieces of an operand
     boundary that lie inside / outside the other operand are NOT on the boundary of the result."""
     A = E["a"] if E["t"] == "boundary" else None
-    if A is None or rg.has(A, lambda n: n["t"] == "product") or not rg.has(A, lambda n: n["t"] in ("union", "cut", "isect")):
+    if A is None or rg.has(A, lambda n: n["t"] == "product") or \
+            (booleans_only and not rg.has(A, lambda n: n["t"] in ("union", "cut", "isect"))):
         return None
     var = rg.space_vars(A)[0][0]
     rows = max(k, 1)
@@ -357,6 +380,22 @@ def extra_cases(tier, seed):
         node["disjoint" if op == "union" else "contained"] = fl
         out.append({"dom": {"E": {"t": "boundary", "a": node}, "kind": "boundary", "pvars": [], "lattice": True, "far": False},
                     "prows": {}, "rng": 3 + seed})
+    # rotations about a pivot other than the origin (constant and moving), interior and boundary; large discs
+    sq = {"t": "par", "var": "x", "o": C([0.5, 0.2]), "c1": C([1.7, 0.4]), "c2": C([0.3, 1.1])}
+    pivots = (C([2.0, 1.0]), {"k": "affine", "var": "p", "v0": [2.0, 1.0], "V1": [[1.0], [-0.5]]})
+    for j, piv in enumerate(pivots):
+        for form, ang in (("angles", C([0.9])), ("matrix", C([2.4])), ("angles", {"k": "affine", "var": "p", "v0": [0.3], "V1": [[1.4]]})):
+            R = {"t": "rotate", "a": sq, "angle": ang, "around": piv, "form": form}
+            fv = rg.free_vars(R)
+            for E in (R, {"t": "boundary", "a": R}):
+                out.append({"dom": {"E": E, "kind": "boundary" if E is not R else "interior", "pvars": sorted(fv), "lattice": False, "far": False},
+                            "prows": {"p": [[0.2], [0.9]]} if fv else {}, "rng": 40 + j + seed})
+    for r in (C([250.0]), {"k": "affine", "var": "p", "v0": [40.0], "V1": [[300.0]]}):
+        D0 = {"t": "circle", "var": "x", "c": C([30.0, -80.0]), "r": r}
+        fv = rg.free_vars(D0)
+        for E in (D0, {"t": "boundary", "a": D0}):
+            out.append({"dom": {"E": E, "kind": "boundary" if E is not D0 else "interior", "pvars": sorted(fv), "lattice": False, "far": False},
+                        "prows": {"p": [[0.3], [1.0]]} if fv else {}, "rng": 50 + seed})
     box = [[sx * 0.7 + 1, sy * 0.5 - 2, sz * 0.9] for sx in (-1, 1) for sy in (-1, 1) for sz in (-1, 1)]
     boxf = [[0, 1, 3], [0, 3, 2], [4, 6, 7], [4, 7, 5], [0, 4, 5], [0, 5, 1], [2, 3, 7], [2, 7, 6], [0, 2, 6], [0, 6, 4], [1, 5, 7], [1, 7, 3]]
     for tl in (0.01, 0.003):
